@@ -188,6 +188,49 @@ def sync_deadlock_stream(viols, stats):
         app.close()
 
 
+def sync_failed_then_retried_stream(viols, stats):
+    """a start-up synchronisation that FAILS (a database error that is not retried, at one of its statements) and is then run
+    again in the same process - the application loaded a second time - must, when the second run completes, have produced
+    every standard name: a failed synchronisation may not count as done (seed C19-i)"""
+    from placement import deploy
+    from placement.objects import resource_class as rc_obj
+    from placement.objects import trait as trait_obj
+    from oslo_db import exception as db_exc
+    for k in range(0, 6):
+        app = impl.App(sync=False)
+        fired = []
+
+        def on_stmt(i, st, params, k=k, fired=fired):
+            if i == k and not fired:
+                fired.append(st)
+                raise db_exc.DBError('injected: connection lost')
+        impl.OBS.reset()
+        impl.OBS.on_stmt = on_stmt
+        trait_obj._TRAITS_SYNCED = False
+        rc_obj._RESOURCE_CLASSES_SYNCED = False
+        first = None
+        try:
+            deploy.update_database(app.conf)
+        except Exception as exc:      # noqa
+            first = exc
+        finally:
+            impl.OBS.on_stmt = None
+        err = None
+        try:                          # the second start-up of the same process: the flags are as the first one left them
+            deploy.update_database(app.conf)
+        except Exception as exc:      # noqa
+            err = exc
+        stats['evaluations'] += 1
+        stats['distinct'].add(('sync-failed-retried', k, first is None, err is None))
+        if err is None:
+            for msg in names_oracle(app.raw_dump())[:3]:
+                viols.append(({'kind': 'sync-failed-then-retried', 'statement': k, 'sql': str(fired[0])[:80] if fired else None,
+                               'first_attempt': repr(first)[:120]},
+                              'start-up sync failed at statement %d (%s), a second start-up in the same process completed, '
+                              'yet: %s' % (k, type(first).__name__, msg)))
+        app.close()
+
+
 def coq_sync_cases(cases, workdir):
     os.makedirs(workdir, exist_ok=True)
     path = os.path.join(workdir, 'sync_cases.v')
@@ -284,6 +327,7 @@ def run(pid, tier, out):
     # 3. start-up synchronisation
     sync_stream(rng, 9 if tier == 'quick' else 60, viols, stats, sync_cases)
     sync_deadlock_stream(viols, stats)
+    sync_failed_then_retried_stream(viols, stats)
     sync_bad = []
     if model_ok:
         try:
